@@ -274,4 +274,13 @@ example : ∀ s ∈ exMsg.signals, PhysOk s := by
 (`float64(2^54-1)` is `2^54`), which is where F1 starts -/
 example : f64OfNat (2 ^ 54 - 1) = f64OfNat (2 ^ 54) := by decide +kernel
 
+/-- **Finding F1 as a theorem about the model**: a 54-bit unsigned signal with factor 2, no range, and the argument +∞.
+The generator emits physical accessors for it, the physical setter stores 2^54, and that is outside the representable
+range — so `C10_setPhys_inRange` cannot be extended beyond 53 bits, and the model reproduces what the code does. -/
+def f1Sig : DSignal := { exSig 0 54 false false false 0 with scale := 0x4000000000000000 }
+
+theorem C10_F1_witness :
+    hasPhysical f1Sig = true ∧ setPhys f1Sig 0x7ff0000000000000 = 2 ^ 54 ∧
+    rawInRange f1Sig (setPhys f1Sig 0x7ff0000000000000) = false := by decide +kernel
+
 end CanVerif
